@@ -492,6 +492,20 @@ func (g *gen) seg(d int) string {
 	case 13:
 		if g.f.Macros {
 			m := fmt.Sprintf("mac%d", g.r.N(100))
+			if g.r.P(12) {
+				// names that other templates of the same engine use too: a macro defined here, called elsewhere without a
+				// definition (an error there), and a macro that shares its name with a built-in function
+				switch g.r.N(4) {
+				case 0:
+					return g.open("macro shared_badge(a)") + "<" + g.print("a") + ">" + g.open("endmacro") + g.print("shared_badge(1)")
+				case 1:
+					return g.print("shared_badge('x')")
+				case 2:
+					return g.open("macro max(a, b)") + "[macro " + g.print("a") + "/" + g.print("b") + "]" + g.open("endmacro") + g.print("_self.max(1, 2)")
+				default:
+					return g.print("max(3, 8)") + g.print("min(3, 8)")
+				}
+			}
 			if g.r.P(25) {
 				// a macro that calls itself, and one that calls another macro of the same template
 				body := g.at("macro-body", func() string { return g.print(g.wrapSpy(g.scalar(0))) })
